@@ -5,7 +5,8 @@
 (* seeded random numbers are decoded into operations against the CURRENT model tree, so     *)
 (* never into one that would block on a fifo) operation sequences over the small universe    *)
 (* names {a,b,c}, prior states of the target "a" in {absent, short file, long file, empty    *)
-(* dir, non-empty dir, link to dir, link to file, dangling link}, path spellings             *)
+(* dir, non-empty dir, link to dir, link to file, dangling link, link loop, link chain},     *)
+(* path spellings                                                                            *)
 (* {a/b, a//b, a/b/, ./a/b, /a/b}.  The model state (tree) is advanced with FsTree!Model so  *)
 (* that later operations of a sequence are chosen against the tree the earlier ones leave.   *)
 (* Output: <<"I", json>> one line per initial tree, <<"P", json>> one line per sequence.     *)
@@ -32,7 +33,10 @@ Inits == <<
     WithA(Link(<<"zz">>)),                                     \* dangling link
     \* a directory holding links (to a directory and a file outside it), a fifo and a subtree
     Put(Put(Put(Put(Put(WithA(Dir), <<"a", "a">>, Link(<<"..", "b">>)), <<"a", "b">>, Fifo),
-        <<"a", "c">>, Link(<<"..", "c">>)), <<"a", "d">>, Dir), <<"a", "d", "l">>, Link(<<"..", "..", "b", "b">>))
+        <<"a", "c">>, Link(<<"..", "c">>)), <<"a", "d">>, Dir), <<"a", "d", "l">>, Link(<<"..", "..", "b", "b">>)),
+    \* a symbolic-link loop a -> b/l -> ../a (ELOOP), and a two-link chain a -> b/l -> ../b/b (a directory)
+    Put(WithA(Link(<<"b", "l">>)), <<"b", "l">>, Link(<<"..", "a">>)),
+    Put(WithA(Link(<<"b", "l">>)), <<"b", "l">>, Link(<<"..", "b", "b">>))
 >>
 
 TreeList(t) == SetToSeq({[p |-> q, n |-> t[q]] : q \in DOMAIN t})
@@ -64,14 +68,17 @@ Writes == {"write"}
 \* operations that would open a fifo block for ever: never generated
 OpensFifo(t, segs) == LET w == Resolve(t, segs, TRUE) IN w.r = "node" /\ t[w.p].k = "p"
 Blocks(t, o) ==
-    \/ Escapes(t, o.p) \/ (o.op \in {"copy", "rename"} /\ Escapes(t, o.q))      \* would act outside the private root
-    \/ o.op \in Writes \cup {"oopen", "read", "copy", "remove_dir_all", "read_dir"} /\ OpensFifo(t, o.p)
-    \/ o.op = "copy" /\ OpensFifo(t, o.q)
+    \/ Escapes(t, o.p) \/ (o.op \in {"copy", "copy_lim", "rename"} /\ Escapes(t, o.q))      \* would act outside the private root
+    \/ o.op \in Writes \cup {"oopen", "read", "copy", "copy_lim", "remove_dir_all", "read_dir"} /\ OpensFifo(t, o.p)
+    \/ o.op \in {"copy", "copy_lim"} /\ OpensFifo(t, o.q)
 Ops(t) == {o \in {Op1(op, p) : op \in Unary, p \in Targets}
                  \cup {OpC(op, p, c) : op \in Writes, p \in Targets, c \in {S, M}}
                  \cup {Op2(op, p, q) : op \in {"copy", "rename"}, p \in Sources, q \in Targets}
-                 \cup (IF OpSet = "all" THEN {OpF(p, S, f) : p \in OpenTargets, f \in AllFlags} ELSE {}) :
-              ~Blocks(t, o) /\ ~(o.op = "copy" /\ CopySameNode(t, o.p, o.q))}
+                 \cup (IF OpSet = "all" THEN {OpF(p, S, f) : p \in OpenTargets, f \in AllFlags} ELSE {})
+                 \cup (IF OpSet = "all" THEN {[op |-> "copy_lim", p |-> p, q |-> q, c |-> [n |-> lim, b |-> <<>>, h |-> ""], f |-> <<>>] :
+                                                 p \in {<<"b", "a">>, <<"c">>, <<"a">>}, q \in {<<"a">>, <<"b", "a">>, <<"a", "b">>, <<"b", "x">>},
+                                                 lim \in {1, 3}} ELSE {}) :
+              ~Blocks(t, o) /\ ~(o.op \in {"copy", "copy_lim"} /\ CopySameNode(t, o.p, o.q))}
 
 Picks == IF Mode = "picks" THEN ndJsonDeserialize(IOEnv.PICKS) ELSE <<>>
 KindSeq   == <<"read", "create_dir", "create_dir_all", "remove_dir_all", "remove_file", "remove_dir", "exists",
